@@ -140,6 +140,12 @@ def run(rep):
     check_zip_lengths(r_, "x", p, p.fn(FX + "zip_with_length_gate"))
     _expect([ok for k, ok in r_.v] == [False, True], "zip length gate: %s" % r_.v)
     n += 1
+    from .guards import check_whole_sequence
+    r_ = _R()
+    for nm in ("validates_computed_suffix", "validates_computed_slice", "validates_adjacent_pairs"):
+        check_whole_sequence(r_, "x", p, p.fn(FX + nm))
+    _expect([ok for k, ok in r_.v] == [False, False, True], "whole-sequence narrowing: %s" % r_.v)
+    n += 1
     f_ = p.fn(FX + "presence_via_ok_or")
     g_ = f_.call_sites(r"BTreeMap.*::get$")[0]
     pe = presence_edges(f_, g_)
